@@ -435,6 +435,8 @@ def gen_sb(rng):
             # `peek`: the reported boundaries are read right after construction and again between insertions -- what
             # is reported later must still be what index_of uses (a derived view that is computed once goes stale)
             "peek": rng.random() < 0.5,
+            # continue on a pickled / deep-copied archive after this many insertions (None: never)
+            "ckpt": [rng.randint(0, 12), rng.choice(["pickle", "deepcopy", "copy-chain"])] if rng.random() < 0.4 else None,
             "ops": [[rng.random() for _ in range(nd)] + [rng.choice(["in", "bnd", "ulp", "out", "eps", "eps"])]
                     for _ in range(rng.randint(6, 25))]}
 
@@ -454,6 +456,9 @@ def run_sb(case, drv):
     pool = [off + r.uniform(-3, 3) for _ in range(4)]
     for t in range(case["nadd"]):
         m = [r.choice(pool) if case["dup"] else off + r.uniform(-3, 3) for _ in range(nd)]
+        if case.get("ckpt") and t == case["ckpt"][0]:
+            import archlib
+            a = archlib.checkpoint(a, case["ckpt"][1])
         a.add_single([float(t)], r.uniform(-1, 1), m)
         if case.get("peek") and t % 3 == 0:
             peeks += sum(len(b) for b in a.boundaries) + len(a.lower_bounds) + len(a.upper_bounds)
@@ -482,6 +487,13 @@ def run_sb(case, drv):
     arr = np.array(pts, dtype=NP[dt])
     idx = a.index_of(arr)
     cells = int(np.prod(case["dims"]))
+    for k, d in enumerate(case["dims"]):
+        # the reported bounds are the first / last boundary in use (what index_of clips to is what it searches in)
+        if float(a.lower_bounds[k]) != float(a.boundaries[k][0]) or float(a.upper_bounds[k]) != float(a.boundaries[k][d]):
+            return Failure("oracle", f"[C03] SlidingBoundariesArchive {dt}: the bounds of dimension {k} "
+                           f"[{float(a.lower_bounds[k])!r}, {float(a.upper_bounds[k])!r}] are not the first / last boundary "
+                           f"[{float(a.boundaries[k][0])!r}, {float(a.boundaries[k][d])!r}] after {case['nadd']} insertions"
+                           + (f" (continued on a {case['ckpt'][1]} copy after insertion {case['ckpt'][0]})" if case.get("ckpt") else ""))
     if np.any(idx < 0) or np.any(idx >= cells):
         return Failure("oracle", f"[C03] SlidingBoundariesArchive.index_of outside [0, {cells})")
     if [int(a.index_of_single(p)) for p in arr[:3]] != [int(i) for i in idx[:3]]:
